@@ -429,6 +429,7 @@ def case_multi(ctx, rng, idx):
             ctx.ev("set-grouping-independent", diff is None, cls="multi:%s:%s" % (TNAME[t], diff),
                    detail=lambda: {**tag, "name": nm, "combination": c, "field": diff,
                                    "merged": stats(got), "single": stats(ref)})
+    ctx.sample("multi", tag)
     ctx.sig("multi", nnames, tuple(TNAME[t] for t in kinds), vclass, grouping, ncomb)
 
 
